@@ -586,6 +586,26 @@ func init() {
 		f.Bucket.Cfg = cfg.Faults
 		f.Bucket.Cfg.StoreErr, f.Bucket.Cfg.StoreErrAfter = 0, 0
 		cache := map[string]Logical{}
+		// In some runs an undecodable blob is the newest object of one or
+		// two instances: their newest *decodable* snapshot is an older one.
+		if t.Chance("ro-corrupt", 400) {
+			for _, n := range f.Nodes[:1+t.Choose("ro-corrupt-n", 2)] {
+				if n == ro {
+					continue
+				}
+				ts := time.Now()
+				name := strings.Replace(snapName(DBName, n.Name, ts, ""), "__G1", "__GH", 1)
+				blob, kind := hostileBlob(t, validBlob(DBName, n.Name, ts, 1))
+				if ok, _ := decodeFullyNoPanicCheck(blob); ok {
+					continue
+				}
+				f.Bucket.Put(name, blob, "hostile")
+				cache[name] = nil // undecodable
+				f.Sim.Logf("  undecodable blob %s (%s) is now the newest object of %s", name, kind, n.Name)
+				f.Sim.Probe("runonce-corrupt-newest")
+				f.Sim.Sleep(time.Millisecond)
+			}
+		}
 		atStart := f.NewestDecodableByInstance(cache)
 		want := Logical{}
 		for _, name := range atStart {
